@@ -15,14 +15,14 @@ RULE = ("Small generated cases for every subcommand that writes a VCF, BAM or TS
         "equal-weight reads, read-free pedigree variants, reads or read clouds spanning several phase sets with equal scores, "
         "polyploid clusters of identical reads): phase (single samples, trios and quartets with --ped, with and without --use-ped-samples and an unrelated "
         "extra individual in the same files, all list outputs), genotype (with and without --ped), polyphase (--threads 1/2/4, one or two samples, --use-prephasing with one pre-phased and one unphased sample), haplotag (--output-threads 1/4, BX "
-        "clouds, --regions over several contigs), haplotagphase, stats, compare, split and unphase. Each case is executed 3-4 times as a real subprocess "
+        "clouds, --regions over several contigs), haplotagphase, stats, compare, split, unphase and find_snv_candidates. Each case is executed 3-4 times as a real subprocess "
         "with PYTHONHASHSEED in {0, 1, 2, 12345} and different thread settings; all output files (without the ##commandline "
         "/ @PG CL lines) must be identical to those of the first execution. Non-trivial = the harness built a tie into the "
         "case (noisy reads, read-free forced or ambiguous pedigree sites, multi-set clouds) or varied the thread count. "
         "evaluations = cases; units = subprocess executions. Distinct = distinct generated case.")
 ASSUMPTIONS = [
     "the operating system's scheduling of multiprocessing workers is sampled, not controlled",
-    "outputs are compared after removing the recorded command line (VCF ##commandline, BAM @PG)",
+    "outputs are compared after removing the recorded command line (VCF ##commandline, BAM @PG) and the ##fileDate line of find_snv_candidates",
 ]
 
 PY = os.environ.get("VERIF_PYTHON", "/venv/bin/python")
@@ -51,7 +51,8 @@ def norm_file(path):
         return "\n".join(out)
     op = gzip.open if path.endswith(".gz") else open
     with op(path, "rt", errors="replace") as f:
-        return "".join(l for l in f if not l.startswith("##commandline"))
+        # the recorded command line and (find_snv_candidates) the date of the run are not results
+        return "".join(l for l in f if not l.startswith(("##commandline", "##fileDate")))
 
 
 def noisy_reads(case, reads, rate_seed):
@@ -306,7 +307,7 @@ class ToolsPart(Base):
     nruns = 2
 
     def gen(self, draw):
-        tool = draw(st.sampled_from(["stats", "compare", "unphase", "split", "haplotagphase"]))
+        tool = draw(st.sampled_from(["stats", "compare", "unphase", "split", "haplotagphase", "find_snv_candidates"]))
         c = {"tool": tool}
         if tool in ("stats", "unphase"):
             enc = draw(st.sampled_from(["PS", "HP"]))
@@ -320,6 +321,12 @@ class ToolsPart(Base):
         elif tool == "split":
             from props.c14_split import gen_case
             c["split"] = gen_case(draw)
+        elif tool == "find_snv_candidates":
+            g = P.gen_case(draw, nsamples=(1, 1), ncontigs=(1, 2), length=(300, 600), depth=(4, 10), read_len=(60, 250), paired_share=10,
+                           clip_share=0, eqx_share=0, kinds=("snv",))
+            g["noise"] = draw(st.integers(0, 10 ** 6))
+            g["fsc"] = {"minabs": draw(st.sampled_from([1, 2, 3])), "multi": draw(st.booleans())}
+            c["fsc"] = g
         else:
             from props.c17_haplotagphase import gen as gen17
             c["htp"] = gen17(draw)
@@ -340,11 +347,26 @@ class ToolsPart(Base):
                 return None
             paths = [write_file(c, i, os.path.join(d, "f%d.vcf" % i)) for i in range(len(c["files"]))]
             args = ["compare", "--ploidy", str(c["ploidy"]), "--tsv-pairwise", "{out}/p.tsv"]
+            if c.get("ignore_sample_name"):
+                args.append("--ignore-sample-name")
+            if c.get("only_snvs"):
+                args.append("--only-snvs")
             outs = ["p.tsv", "stdout"]
             if c["ploidy"] == 2:
                 args += ["--switch-error-bed", "{out}/e.bed", "--longest-block-tsv", "{out}/l.tsv"]
                 outs += ["e.bed", "l.tsv"]
             return args + paths, outs
+        if tool == "find_snv_candidates":
+            g = case["fsc"]
+            reads = noisy_reads(g, G.render_specs(g, g["read_specs"]), g["noise"])
+            if not reads:
+                return None
+            ref = G.write_fasta(g["contigs"], os.path.join(d, "ref.fa"))
+            bam = G.write_bam(g, reads, os.path.join(d, "reads.bam"))
+            args = ["find_snv_candidates", ref, bam, "--minabs", str(g["fsc"]["minabs"]), "-o", "{out}/cand.vcf"]
+            if g["fsc"]["multi"]:
+                args.append("--multi-allelics")
+            return args, ["cand.vcf"]
         if tool == "split":
             from props.c14_split import write_reads
             c = case["split"]
